@@ -32,11 +32,21 @@ ASSUMPTIONS = ["function-level oracle = str.isidentifier() and not keyword.iskey
 ALPHABET = ["a", "s", "i", "B", "1", "_", "-", " ", ".", "$", "/", "{", "é", "日"]
 
 
+# one representative per Unicode class that identifier syntax treats specially: decimal digits outside ASCII (Nd: may continue
+# an identifier, may not start one), other numerics (No: ², ¾), letter-numbers (Nl: Ⅷ may start one), combining marks
+# (Mn / Mc: continue only), connector punctuation (Pc), format characters (ZWJ / ZWNJ), compatibility forms (NFKC changes them)
+UNICODE_EDGE = ["\u0662", "\u0968", "\uff12", "\u00b2", "\u00be", "\u2167", "\u0301", "\u093e", "\u203f", "\u200d", "\u200c",
+                "\ufb01", "\u212b", "\u00aa", "\u0131", "\u00df", "\U0001d7d8"]
+
+
 def all_strings(maxlen: int = 4):
     yield ""
     for n in range(1, maxlen + 1):
         for t in itertools.product(ALPHABET, repeat=n):
             yield "".join(t)
+    for c in UNICODE_EDGE:
+        for t in (c, c * 4, c + "d", "-" + c, c + "x1", "a" + c, c + "\u062f", "_" + c, c + " " + c, "1" + c):
+            yield t
 
 
 def input_features(s: str) -> list[str]:
